@@ -11,7 +11,6 @@
 package c20
 
 import (
-	"bytes"
 	"encoding/json"
 	"errors"
 	"fmt"
@@ -25,10 +24,10 @@ import (
 	"github.com/Jigsaw-Code/outline-ss-server/service"
 	"github.com/Jigsaw-Code/outline-ss-server/service/metrics"
 	"github.com/prometheus/client_golang/prometheus"
-	"github.com/prometheus/common/expfmt"
 
 	"verif/engine"
 	"verif/harness/hk"
+	"verif/harness/promx"
 	"verif/rt/vrt"
 )
 
@@ -286,43 +285,23 @@ func apply(sm service.ServiceMetrics, kind, ai int) {
 }
 
 func scan(sm prometheus.Collector) (string, string) {
-	reg := prometheus.NewPedanticRegistry()
-	if err := reg.Register(sm); err != nil {
-		return "gather-error", err.Error()
-	}
-	mfs, err := reg.Gather()
+	samples, _, err := promx.Gather(sm)
 	if err != nil {
 		return "gather-error", err.Error()
 	}
-	var buf bytes.Buffer
-	for _, mf := range mfs {
-		if _, err := expfmt.MetricFamilyToText(&buf, mf); err != nil {
-			return "gather-error", err.Error()
+	for _, m := range samples {
+		for k, v := range m.Labels {
+			if !allowedLabels[k] {
+				return "unknown-label{" + k + "}", fmt.Sprintf("metric %s has label %q (value %q)", m.Name, k, v)
+			}
 		}
-		for _, m := range mf.Metric {
-			for _, lp := range m.Label {
-				if !allowedLabels[lp.GetName()] {
-					return "unknown-label{" + lp.GetName() + "}", fmt.Sprintf("metric %s has label %q (value %q)", mf.GetName(), lp.GetName(), lp.GetValue())
-				}
-			}
-			vals := []float64{}
-			if m.Counter != nil {
-				vals = append(vals, m.Counter.GetValue())
-			}
-			if m.Gauge != nil {
-				vals = append(vals, m.Gauge.GetValue())
-			}
-			if m.Histogram != nil {
-				vals = append(vals, m.Histogram.GetSampleSum())
-			}
-			for _, v := range vals {
-				if v == 54321 || v == 42424 {
-					return "port-as-value", fmt.Sprintf("metric %s has a sample equal to a client port (%v)", mf.GetName(), v)
-				}
+		for _, v := range []float64{m.Value, m.Sum} {
+			if v == 54321 || v == 42424 {
+				return "port-as-value", fmt.Sprintf("metric %s has a sample equal to a client port (%v)", m.Name, v)
 			}
 		}
 	}
-	text := strings.ToLower(buf.String())
+	text := strings.ToLower(promx.Text(samples))
 	for _, n := range needles {
 		if i := strings.Index(text, n); i >= 0 {
 			lo, hi := i-80, i+40
